@@ -211,8 +211,13 @@ def x_hist(ctx, case):
             if reason:
                 ctx.check(got.get("reason", ("", b""))[1].decode("utf8") == reason, "far.skip-reason",
                           lambda: {"test": spec["id"], "got": got.get("reason"), "want": reason, **detail()})
-        if t["t_start"] is not None:
-            ctx.check(b["before"][-1:] == [t["t_start"]] and b.get("inside", [])[-1:] == [t["t_end"]],
+        def as_supplied(got, want):
+            # after time(None) the reporter reads the system clock again: any time, but not a supplied one
+            if want is not None:
+                return got[-1:] == [want]
+            return all(x is not None and x not in H.TIMES for x in got[-1:])
+        if t["t_start"] is not None or t["t_end"] is not None:
+            ctx.check(as_supplied(b["before"], t["t_start"]) and as_supplied(b.get("inside", []), t["t_end"]),
                       "far.times-as-supplied",
                       lambda: {"test": spec["id"], "before": b["before"], "inside": b.get("inside"),
                                "want": (t["t_start"], t["t_end"]), **detail()})
